@@ -12,8 +12,10 @@ Sequential part (no concurrent writer): `Range` calls the visitor on the live en
 the traversal began) in *some* enumeration order, each key at most once, each pair exactly as stored, stops
 immediately when the visitor returns false, and visits everything when it never does; `Items` is exactly the
 live content; a nil visitor does nothing.  For the tables the same holds for any hash, seeds and layout.
-The concurrent part (traversal against writers, grow, shrink, Clear, re-entrant visitors) is in
-`Props/C07conc.lean` (M4a) and in the scheduler exploration.
+The concurrent part (traversal against writers, grow, shrink, Clear, re-entrant visitors) is the section
+"concurrent traversals" below: M4a, every schedule - at most once per key, never a phantom, every entry that stays put
+(`C07_complete`), exactly the content when nobody writes (`C07_exact_when_unmodified`), and the same three clauses for the
+text of `Cache.Range` / `CacheOf.Range` over the protocol (`C07_cache_over_protocol`).
 -/
 namespace Props.C07
 open Spec Model Proofs.CacheRefine
